@@ -10,6 +10,7 @@ import (
 	"github.com/orda-io/orda/server/schema"
 	"go.mongodb.org/mongo-driver/bson"
 	"vh/core"
+	"vh/crdt"
 )
 
 // StoredOp is an operation document of the store.
@@ -99,6 +100,10 @@ type Ledger struct {
 	SkipKeys map[string]bool
 	mu       sync.Mutex
 	offered  map[string]bool // duid-independent: cuid|seq|lamport|type|bodyhash
+	// Truncated describes the first request pack seen at the boundary that carried an
+	// incomplete transaction unit (a header announcing more operations than follow it in the
+	// same pack): a committed transaction is pushed as one contiguous unit.
+	Truncated string
 }
 
 // NewLedger creates an empty ledger.
@@ -113,11 +118,16 @@ func (l *Ledger) Offer(req *model.PushPullMessage) {
 	l.mu.Lock()
 	defer l.mu.Unlock()
 	for _, p := range req.PushPullPacks {
-		for _, o := range p.Operations {
+		for i, o := range p.Operations {
 			if o.ID == nil {
 				continue
 			}
 			l.offered[opKey(o.ID.CUID, o.ID.Seq, o.ID.Lamport, o.OpType.String(), o.Body)] = true
+			if o.OpType == model.TypeOfOperation_TRANSACTION && l.Truncated == "" {
+				if d, err := crdt.Decode(o); err == nil && d.N > int64(len(p.Operations)-i) {
+					l.Truncated = fmt.Sprintf("a request of client %s for key %q carries a transaction header (seq %d) announcing %d operations, but only %d operations follow it in the pack", req.Cuid, p.Key, o.ID.Seq, d.N, len(p.Operations)-i)
+				}
+			}
 		}
 	}
 }
@@ -127,6 +137,14 @@ func (l *Ledger) Offer(req *model.PushPullMessage) {
 // per client the stored seqs are 1,2,3,... in sseq order, every stored operation was offered
 // by a client (ledger, if given), every recorded checkpoint is covered by what is stored.
 func (b *Bed) CheckLog(l *Ledger, only string) (sig, msg string) {
+	if l != nil {
+		l.mu.Lock()
+		tr := l.Truncated
+		l.mu.Unlock()
+		if tr != "" {
+			return "request:truncated-unit", tr
+		}
+	}
 	for _, dt := range b.Datatypes() {
 		if only != "" && dt.DUID != only {
 			continue
